@@ -1,6 +1,7 @@
 package main
 
 import (
+	"regexp"
 	"sort"
 	"strings"
 
@@ -132,3 +133,5 @@ func isSuccessReturn(r *ssa.Return) bool {
 }
 
 func sortStrings(s []string) { sort.Strings(s) }
+
+func regexpMust(p string) *regexp.Regexp { return regexp.MustCompile(p) }
